@@ -59,6 +59,9 @@ def plan(tier, seed):
                 shards.append(("pipe", tier, gi, ng, omfloat))
         if gi % 4 == 0:
             shards.append(("pipe_nostart", tier, gi, 3, True))
+        if gi % 4 == 3:
+            shards.append(("pipe_missing", tier, gi, 3, gi % 8 == 3))
+            shards.append(("pipe_bigcell", tier, gi, 2, gi % 8 != 3))
         if gi % 4 == 2:
             for rep in (2, 3, 4):
                 shards.append(("pipe_repeat%d" % rep, tier, gi, 2, rep % 2 == 0))
@@ -73,8 +76,8 @@ def seed_of():
     return int(os.environ.get("VERIF_SEED", "0") or 0)
 
 
-def true_grains(ng, seed, strained=True):
-    B0 = O.cell_to_B(CELL)
+def true_grains(ng, seed, strained=True, cell=None):
+    B0 = O.cell_to_B(cell or CELL)
     out = []
     for k in range(ng):
         q = (k + seed) % 5
@@ -87,7 +90,9 @@ def true_grains(ng, seed, strained=True):
 
 def simulate(tr, pars, grains, dsmax=0.95):
     """forward simulation with the python reference only; returns arrays sc, fc, omega, grain, hkl"""
-    hk, _ = O.brute_hkls(CELL, SYM, dsmax)
+    cell_ = [pars["cell__a"], pars["cell__b"], pars["cell__c"], pars["cell_alpha"], pars["cell_beta"], pars["cell_gamma"]]
+    dsmax = dsmax * CELL[0] / cell_[0]
+    hk, _ = O.brute_hkls(cell_, SYM, dsmax)
     hkls = np.array(sorted(hk), float)
     det = {k: pars[k] for k in ("distance", "y_center", "z_center", "y_size", "z_size", "tilt_x", "tilt_y", "tilt_z", "o11", "o12", "o21", "o22")}
     rows = []
@@ -95,7 +100,7 @@ def simulate(tr, pars, grains, dsmax=0.95):
         g = np.dot(np.linalg.inv(ubi), hkls.T)
         tth, (e1, e2), (o1, o2) = tr.uncompute_g_vectors(g, pars["wavelength"], wedge=pars["wedge"], chi=pars["chi"])
         for eta, om in ((e1, o1), (e2, o2)):
-            ok = np.isfinite(tth) & (tth > 0.5) & ~((eta == 0) & (om == 0))
+            ok = np.isfinite(tth) & (tth > 0.5 * CELL[0] / cell_[0]) & ~((eta == 0) & (om == 0))
             fc, sc = tr.compute_xyz_from_tth_eta(tth, eta, om, t_x=t[0], t_y=t[1], t_z=t[2], wedge=pars["wedge"], chi=pars["chi"], **det)
             inside = ok & (sc > 5) & (sc < 2043) & (fc > 5) & (fc < 2043)
             for k in np.nonzero(inside)[0]:
@@ -144,15 +149,25 @@ def _makemap_repeated(opts, k):
     o.scandata[opts.fltfile].writefile(opts.fltfile + ".new")
 
 
-def run_case(sh, mods, pars, ng, omfloat, case, passes=3, with_translation=True, cubic=False, repeat=0):
+def run_case(sh, mods, pars, ng, omfloat, case, passes=3, with_translation=True, cubic=False, repeat=0, unlisted=0, cellscale=1.0):
     tr, gm, P, cf_mod, makemap_mod = mods
     wd = os.path.join(WORK, "c09_%d" % os.getpid())
     shutil.rmtree(wd, ignore_errors=True)
     os.makedirs(wd)
     try:
-        truth = true_grains(ng, seed_of(), strained=not cubic)
+        if cellscale != 1.0:
+            # a large cell seen from proportionally further away: the same reflections at the same detector positions
+            pars = dict(pars, cell__a=CELL[0] * cellscale, cell__b=CELL[1] * cellscale, cell__c=CELL[2] * cellscale, distance=pars["distance"] * cellscale)
+        cell_ = [pars["cell__a"], pars["cell__b"], pars["cell__c"], pars["cell_alpha"], pars["cell_beta"], pars["cell_gamma"]]
+        truth = true_grains(ng, seed_of(), strained=not cubic, cell=cell_)
         peaks = simulate(tr, pars, truth)
         start = perturbed(truth)
+        if unlisted:
+            # the last `unlisted` grains are in the sample (their peaks are in the table) but not in the grain file
+            start = start[:ng - unlisted]
+            peaks[peaks[:, 3] >= ng - unlisted, 3] = -1
+            truth = truth[:ng - unlisted]
+            ng = ng - unlisted
         if not with_translation:
             # an indexer-style ubi file: no positions known; grains closer to the axis so that the assignment can start
             truth = [(u, t * 0.3) for u, t in truth]
@@ -232,14 +247,15 @@ def run_case(sh, mods, pars, ng, omfloat, case, passes=3, with_translation=True,
                 nbad = int((lab != peaks[:, 3].astype(int)).sum()) if len(lab) == len(peaks) else -1
                 sh.violation("assignment:peak-not-labelled-with-its-grain", case, {"n_wrong": nbad, "n_peaks": len(peaks)}); ok = False
         if ok:
+            owned = peaks[:, 3] >= 0
             for name, col in (("h", 4), ("k", 5), ("l", 6)):
-                if not np.array_equal(np.asarray(flt.getcolumn(name), float), peaks[:, col]):
+                if not np.array_equal(np.asarray(flt.getcolumn(name), float)[owned], peaks[owned, col]):
                     sh.violation("saved-file:integer-hkl-differs-from-simulation", dict(case, column=name),
                                  {"n_wrong": int((np.asarray(flt.getcolumn(name), float) != peaks[:, col]).sum())}); ok = False
                     break
         if ok:
             # the saved flt carries the refined values: hr,kr,lr close to integers, g-vectors = UB.hkl of the saved grains
-            hr = np.array([flt.hr, flt.kr, flt.lr])
+            hr = np.array([flt.hr, flt.kr, flt.lr])[:, peaks[:, 3] >= 0]
             if np.abs(hr - np.round(hr)).max() > 5e-3:
                 sh.violation("saved-file:real-hkl-far-from-integer", case, {"max": float(np.abs(hr - np.round(hr)).max())}); ok = False
             for k in range(ng):
@@ -277,9 +293,10 @@ def run_shard(desc):
     pars = geometries(tier)[gi]
     case = {"tier": tier, "geometry": gi, "ngrains": ng, "omega_float": omfloat, "seed": seed_of(), "start_has_translations": kind != "pipe_nostart",
             "cubic_constraint": kind == "pipe_cubic", "refinepositions_calls_on_one_object": int(kind[11:]) if kind.startswith("pipe_repeat") else 0,
+            "grains_not_in_the_grain_file": 1 if kind == "pipe_missing" else 0, "cell_scale": 30.0 if kind == "pipe_bigcell" else 1.0,
             "pars": {k: v for k, v in pars.items() if not k.startswith("cell")}}
     info = run_case(sh, _mods(), pars, ng, omfloat, case, with_translation=(kind != "pipe_nostart"), cubic=(kind == "pipe_cubic"),
-                    repeat=case["refinepositions_calls_on_one_object"])
+                    repeat=case["refinepositions_calls_on_one_object"], unlisted=case["grains_not_in_the_grain_file"], cellscale=case["cell_scale"])
     sh.sample(dict(case, **{k: v for k, v in (info or {}).items()}), limit=1)
     return sh
 
@@ -289,5 +306,6 @@ def replay(case):
     sh = Shard()
     pars = geometries(case["tier"])[case["geometry"]]
     run_case(sh, _mods(), pars, case["ngrains"], case["omega_float"], case, with_translation=case.get("start_has_translations", True),
-             cubic=case.get("cubic_constraint", False), repeat=case.get("refinepositions_calls_on_one_object", 0))
+             cubic=case.get("cubic_constraint", False), repeat=case.get("refinepositions_calls_on_one_object", 0),
+             unlisted=case.get("grains_not_in_the_grain_file", 0), cellscale=case.get("cell_scale", 1.0))
     return (not sh.violations), {"violations": sh.violations[:3]}
